@@ -393,7 +393,7 @@ Fixpoint merge_row (fuel : nat) (sc : list N) (sv : list cval) (dc : list N) (nw
   | O => None
   | S f =>
     match sc, dc with
-    | [], [] => Some ([], [])
+    | [], [] => match nw with None => Some ([], []) | Some _ => None end   (* debug_assert!(new_components.next().is_none()) *)
     | s :: sc', [] =>
         match sv with
         | v :: sv' => match merge_row f sc' sv' [] nw with Some (d, k) => Some (d, (s, v) :: k) | None => None end
